@@ -31,15 +31,21 @@ var commonStub = []string{
 	"the clock (testing/synctest fake time)", "goroutine scheduling of instrumented code (verifsim)", "math/rand seed",
 }
 
+var simAssumptions = []string{
+	"the source rewrites (R1-R9 of DESIGN.md) only add scheduling points or fix a choice the runtime makes at random",
+	"preemption granularity is the Go statement; races inside one statement are out of reach of the serialising scheduler",
+	"kernel socket behaviour is modelled by simnet: EOF/ECONNRESET/black hole/datagram loss, no TLS, no DNS",
+}
+
+const ruleTail = "; every scheduling decision, delivery and fault comes from the tape; a run is non-trivial if it had more than one task switch inside instrumented code or at least one fault fired; distinct = distinct event-log hashes (the log contains every controller decision and every history event)"
+
+func simProp(id string, quick, thorough int, level, rule string) *propCfg {
+	return &propCfg{ID: id, Quick: quick, Thorough: thorough, PerProc: 1, Level: level, RunTimeout: 120,
+		Rule: "one evaluation = one simulated run (one synctest bubble in its own OS process): " + rule + ruleTail,
+		Assumptions: simAssumptions, Real: commonReal, Stub: commonStub}
+}
+
 var props = map[string]*propCfg{
-	"C10": {
-		ID: "C10", Quick: 3000, Thorough: 120000, PerProc: 1, Level: "exploration", RunTimeout: 120,
-		Rule: "one evaluation = one simulated run (one synctest bubble in its own OS process): a real client and real service over the simulated network, 1-8 calls, 1-2 faults (peer close/reset/silence at a tape-chosen byte offset of either direction, dial failure, Client.Abort or context cancellation started at a tape-chosen step, slow service functions), every scheduling decision from the tape; a run is non-trivial if it had more than one task switch inside instrumented code or at least one fault fired; distinct = distinct event-log hashes (the log contains every controller decision and every history event)",
-		Assumptions: []string{
-			"the source rewrites (R1-R9 of DESIGN.md) only add scheduling points or fix a choice the runtime makes at random",
-			"preemption granularity is the Go statement; races inside one statement are out of reach of the serialising scheduler",
-			"kernel socket behaviour is modelled by simnet: EOF/ECONNRESET/black hole, no TLS, no DNS",
-		},
-		Real: commonReal, Stub: commonStub,
-	},
+	"C09": simProp("C09", 3000, 150000, "exploration", "2-8 concurrent callers (1-2 calls each, unique nonces) on one client over one multiplexed connection (socket, websocket over net/http and fasthttp, udp) against (a) the real service whose functions park until the controller releases them, so the server completion order is a tape decision, with and without worker pool, (b) a scripted raw peer that answers in any order, answers twice, injects responses with ids that match no pending call, with the request counter preset just below its wrap-around, (c) reverse calls from the service to 1-2 providers over mock/socket/websocket"),
+	"C10": simProp("C10", 3000, 120000, "exploration", "a real client and real service over the simulated network (all seven transport kinds), 1-8 calls, 1-2 faults (peer close/reset/silence at a tape-chosen byte offset of either direction, datagram loss, dial failure, Client.Abort or context cancellation started at a tape-chosen step, slow service functions)"),
 }
